@@ -93,3 +93,54 @@ package node
 //@   ensures [listed_peers_allowed] result == nil && len(nodes) > 0 ==> forall i int :: 0 <= i && i < len(nodes) ==> spawnAllowed(n, name, nodes[i])
 //@   ensures [no_peers_allows_any] result == nil && len(nodes) == 0 ==> forall p gen.Atom :: spawnAllowed(n, name, p)
 //@   ensures [wf_kept] spawnTableWF(n)
+
+// ---------------------------------------------------------------------------------------------
+// C20: cron masks. A value mask (minute/hour/day/month/weekday) denotes the set of values whose
+// bit is set; the special masks denote 'last day of month', 'last weekday x of the month' and
+// 'n-th weekday x of the month'. maskRunAt is the crontab meaning of one mask at instant t.
+
+//@ spec func maskHas(cm cronMask, x int) bool = uint64(cm) & (uint64(1) << uint64(x)) != 0
+//@ spec func wd7(t time.Time) int = (tWeekday(t) == 0 ? 7 : tWeekday(t))
+//@ spec func maskRunAt(cm cronMask, t time.Time) bool = (uint64(cm) & cronMaskType == cronMaskTypeMin ? maskHas(cm, tMinute(t)) : (uint64(cm) & cronMaskType == cronMaskTypeHour ? maskHas(cm, tHour(t)) : (uint64(cm) & cronMaskType == cronMaskTypeDay ? maskHas(cm, tDay(t)) : (uint64(cm) & cronMaskType == cronMaskTypeMonth ? maskHas(cm, tMonth(t)) : (uint64(cm) & cronMaskType == cronMaskTypeWeekDay ? maskHas(cm, wd7(t)) : (uint64(cm) & cronMaskType == cronMaskTypeLastDM ? tDay(t) == tDaysInMonth(t) : (uint64(cm) & cronMaskType == cronMaskTypeLastDW ? int(uint64(cm) & 15) == wd7(t) && tMonth(tPlus(t, 604800000000000)) != tMonth(t) : int((uint64(cm) >> 8) & 255) == wd7(t) && (tDay(t) - 1) / 7 + 1 == int(uint64(cm) & 255))))))))
+//@ spec func knownMaskType(cm cronMask) bool = uint64(cm) & cronMaskType == cronMaskTypeMin || uint64(cm) & cronMaskType == cronMaskTypeHour || uint64(cm) & cronMaskType == cronMaskTypeDay || uint64(cm) & cronMaskType == cronMaskTypeMonth || uint64(cm) & cronMaskType == cronMaskTypeWeekDay || uint64(cm) & cronMaskType == cronMaskTypeLastDM || uint64(cm) & cronMaskType == cronMaskTypeLastDW || uint64(cm) & cronMaskType == cronMaskTypeNDW
+//@ spec func andType(cm cronMask) bool = uint64(cm) & cronMaskType == cronMaskTypeMin || uint64(cm) & cronMaskType == cronMaskTypeHour || uint64(cm) & cronMaskType == cronMaskTypeMonth
+
+//@ func (cm cronMask) MaskType
+//@   props C20
+//@   ensures [type_nibble] result == uint64(cm) & cronMaskType
+
+//@ func (cm cronMask) IsRunAt
+//@   props C20
+//@   requires [known] knownMaskType(cm)
+//@   ensures [meaning] result == maskRunAt(cm, t)
+
+//@ func (cml cronMaskList) IsRunAt
+//@   props C20
+//@   requires [known] forall i int :: 0 <= i && i < len(cml) ==> knownMaskType(cml[i])
+//@   requires [homogeneous] (forall i int :: 0 <= i && i < len(cml) ==> andType(cml[i])) || (forall i int :: 0 <= i && i < len(cml) ==> !andType(cml[i]))
+//@   loop 1 invariant [idx] -1 <= rangeindex && rangeindex < len(cml)
+//@   loop 1 invariant [all_and_so_far] forall j int :: 0 <= j && j <= rangeindex && andType(cml[j]) ==> maskRunAt(cml[j], t)
+//@   loop 1 invariant [no_or_so_far] forall j int :: 0 <= j && j <= rangeindex && !andType(cml[j]) ==> !maskRunAt(cml[j], t)
+//@   loop 1 invariant [run] run == (rangeindex < 0 || andType(cml[rangeindex]) ? (rangeindex < 0 || run) : false) && (rangeindex < 0 ==> run) && ((forall i int :: 0 <= i && i < len(cml) ==> andType(cml[i])) ==> run)
+//@   ensures [and_list] (forall i int :: 0 <= i && i < len(cml) ==> andType(cml[i])) ==> (result <==> (forall i int :: 0 <= i && i < len(cml) ==> maskRunAt(cml[i], t)))
+//@   ensures [or_list] len(cml) > 0 && (forall i int :: 0 <= i && i < len(cml) ==> !andType(cml[i])) ==> (result <==> !(forall i int :: 0 <= i && i < len(cml) ==> !maskRunAt(cml[i], t)))
+//@   ensures [empty] len(cml) == 0 ==> result
+
+//@ spec func listKnown(l cronMaskList) bool = forall i int :: 0 <= i && i < len(l) ==> knownMaskType(l[i])
+//@ spec func listAnd(l cronMaskList) bool = forall i int :: 0 <= i && i < len(l) ==> andType(l[i])
+//@ spec func listOr(l cronMaskList) bool = forall i int :: 0 <= i && i < len(l) ==> !andType(l[i])
+//@ spec func allRun(l cronMaskList, t time.Time) bool = forall i int :: 0 <= i && i < len(l) ==> maskRunAt(l[i], t)
+//@ spec func someRun(l cronMaskList, t time.Time) bool = !(forall i int :: 0 <= i && i < len(l) ==> !maskRunAt(l[i], t))
+
+// crontab rule: minute, hour and month must all match; day-of-month and day-of-week are OR-ed
+// when both are restricted, and a field that is a wildcard (empty list) does not restrict.
+//@ func (csm cronSpecMask) IsRunAt
+//@   props C20
+//@   requires [known] listKnown(csm.MinHourMonth) && listKnown(csm.Day) && listKnown(csm.WeekDay)
+//@   requires [shape] listAnd(csm.MinHourMonth) && listOr(csm.Day) && listOr(csm.WeekDay)
+//@   ensures [crontab_rule] result <==> (allRun(csm.MinHourMonth, t) && (len(csm.Day) == 0 ? (len(csm.WeekDay) == 0 || someRun(csm.WeekDay, t)) : (len(csm.WeekDay) == 0 ? someRun(csm.Day, t) : someRun(csm.Day, t) || someRun(csm.WeekDay, t))))
+
+//@ func cronParseInt
+//@   props C20
+//@   ensures [in_range] result.1 == nil ==> min <= result.0 && result.0 <= max
+//@   ensures [rejects] result.1 != nil ==> result.0 == 0
